@@ -97,7 +97,23 @@ func c14CheckHistory(c *fw.Ctx, ops []extOp, fresh bool, useReset bool) {
 				c.Violate("lookup", "lookup-before-registration", fmt.Sprintf("Lookup(%q) found a format before any format of that name was registered", nm), mk([]byte(nm), 0, "lookup-before"))
 			}
 		}
-		id := applyOp(op, model, base)
+		id, lost := -1, ""
+		func() {
+			defer func() {
+				if e := recover(); e != nil {
+					if ln, ok := e.(lostName); ok {
+						lost = ln.name
+						return
+					}
+					panic(e)
+				}
+			}()
+			id = applyOp(op, model, base)
+		}()
+		if lost != "" {
+			c.Violate("lookup", "lookup-of-registered-parent", fmt.Sprintf("Lookup(%q) returned nil although a format of that name is registered (it was about to be extended)", lost), mk([]byte(lost), 0, "lookup-parent"))
+			return
+		}
 		extIDs = append(extIDs, id)
 		// keep a value returned now; it must not change when the history goes on
 		x := ins[c.Rand.Intn(len(ins))]
